@@ -3,14 +3,12 @@ import MythVerif.Proofs.WsQueueTsoTac
 namespace MythVerif.WsqTso
 open MythVerif.Wsq
 
-set_option maxHeartbeats 4000000 in
 theorem o_pt8 (s s' : St) (e b) : Inv s → s.opc = .pt8 e b → stepO s = some s' → Inv s' := by
   intro h heq hs
   obtain ⟨hbeq, hsh⟩ := h.pt8 e b heq
-  cases h
   simp only [stepO, heq] at hs
   simp at hs; subst hs
-  simp only [heq, ownerLocked, carry, resetting, ownerFlight] at *
+  tso_coreO h heq [pt8]
   constructor
   all_goals (try simp only [ownerLocked, carry, resetting, ownerFlight, upd_apply, applySto])
   case pt9 =>
@@ -24,20 +22,17 @@ theorem o_pt8 (s s' : St) (e b) : Inv s → s.opc = .pt8 e b → stepO s = some 
       rcases h5 with ⟨h6, h7⟩ | h6
       · exact Or.inr (Or.inl ⟨e, by simp [h6], h7⟩)
       · exact Or.inl ⟨e, by simp [h6]⟩
-  tso_rest
+  tso_goalsO h heq
 
-set_option maxHeartbeats 4000000 in
 theorem o_pt9 (s s' : St) : Inv s → s.opc = .pt9 → stepO s = some s' → Inv s' := by
   intro h heq hs
   have hcfg := h.cfg
-  cases h
   simp only [stepO, heq, releaseO, hcfg, code_unlockFence, if_true] at hs
   split at hs
   · rename_i hb
     simp at hb
     simp at hs; subst hs
-    simp only [heq, ownerLocked, carry, resetting, ownerFlight] at *
-    tso_finish
+    tso_fastO h heq [pt9]
   · simp at hs
 
 end MythVerif.WsqTso
